@@ -10,6 +10,9 @@ package backtest
 //@ ensures[C13] nev(self) == old(nev(self)) + 1 && evkind(self, old(nev(self))) == 1
 //@ func interface Report.AssetBegin
 //@ modifies self
+// ghost: gcnt(self, "natt") counts the AssetBegin calls, successful or not
+//@ attr counts = natt
+//@ ensures "ghost-counter" gcnt(self, "natt") == old(gcnt(self, "natt")) + 1
 //@ ensures[C13] result == nil ==> nev(self) == old(nev(self)) + 1 && evkind(self, old(nev(self))) == 2 && evname(self, old(nev(self))) == p0
 //@ ensures[C13] result != nil ==> nev(self) == old(nev(self))
 //@ func interface Report.Write
@@ -34,6 +37,9 @@ package backtest
 //@ ensures[C13] "asset-begin-is-closed-by-asset-end" forall i :: old(nev(b.report)) <= i && i < nev(b.report) && evkind(b.report, i) == 2 ==> i + len(b.Strategies) + 1 < nev(b.report) && evkind(b.report, i + len(b.Strategies) + 1) == 4 && evname(b.report, i + len(b.Strategies) + 1) == evname(b.report, i)
 //@ ensures[C13] "one-write-per-strategy-in-order" forall i, m :: old(nev(b.report)) <= i && i < nev(b.report) && evkind(b.report, i) == 2 && i < m && m <= i + len(b.Strategies) ==> evkind(b.report, m) == 3 && evname(b.report, m) == evname(b.report, i) && evstrat(b.report, m) == b.Strategies[m - i - 1]
 //@ ensures[C03] consumed(names) == len(names)
+// completeness: every asset whose snapshots could be read - however few, none included - is offered to the report
+//@ ensures[C13] "every-readable-asset-is-offered-to-the-report" gcnt(b.report, "natt") - old(gcnt(b.report, "natt")) == gcnt(b.repository, "ngetok") - old(gcnt(b.repository, "ngetok"))
+//@ loop#0 invariant gcnt(b.report, "natt") - old(gcnt(b.report, "natt")) == gcnt(b.repository, "ngetok") - old(gcnt(b.repository, "ngetok"))
 //@ loop#0 invariant old(nev(b.report)) <= nev(b.report)
 //@ loop#0 invariant forall i :: old(nev(b.report)) <= i && i < nev(b.report) ==> 2 <= evkind(b.report, i) && evkind(b.report, i) <= 4
 //@ loop#0 invariant forall i :: old(nev(b.report)) <= i && i < nev(b.report) && evkind(b.report, i) == 2 ==> i + len(b.Strategies) + 1 < nev(b.report) && evkind(b.report, i + len(b.Strategies) + 1) == 4 && evname(b.report, i + len(b.Strategies) + 1) == evname(b.report, i)
